@@ -137,6 +137,7 @@ def apply_history(history):
 _STYLE = {}
 _SHARED = {}
 _COUNTER = [0]
+_LEAVES = []
 VALUE_SETS = {"varied": [4.0, 2.5, 9.0, 0.75, 16.0, 1.25], "special": [0.0, 1.0, -1.0, 2.0, 10.0, 100.0],
               "tiny": [4e-12, 2.5e-12, 9e-12], "huge": [1e9 + 1, 1e9 + 2, 3e9]}
 
@@ -158,6 +159,7 @@ class styled:
 
 def begin_build():
     _SHARED.clear()
+    del _LEAVES[:]
     _COUNTER[0] = 0
 
 
@@ -232,6 +234,7 @@ def make_leaf(items):
     if to_items(m._unit) != [list(x) for x in items]:
         raise CaseInvalid("leaf {} parsed to {}".format(items, to_items(m._unit)))
     _SHARED[key] = m
+    _LEAVES.append(m)
     return m
 
 
@@ -354,10 +357,13 @@ def run_session(steps, style=None):
     Returns the list of observations of the use steps, in order."""
     core.fresh_impl()
     out, events = [], []
+    run_session.state_changes = []
     try:
         for st in steps:
             if st[0] == "use":
                 out.append(observe_use(st[1], events, style=style))
+            elif st[0] == "bad_define":
+                rejected_define(st[1], st[2], run_session.state_changes)
             else:
                 apply_history([st])
                 events.append(st)
@@ -366,13 +372,111 @@ def run_session(steps, style=None):
         reset_state()
 
 
+run_session.state_changes = []
+BAD_UNIT_TEXTS = ["kg*/m", "(kg", "m^", "2m", "kg**m", "m/", "", "m^x", "kg m", "m)"]
+BAD_NAMES = ["k g", "N-1", ""]
+
+
+def rejected_define(name, text, changes):
+    """a define_unit call that the library rejects must leave the definitions exactly as they were"""
+    q, U = _q(), _U()
+    before = [[n, to_items(d)] for n, d in U.UNIT_DEFINITIONS.items()]
+    try:
+        q.define_unit(name, text)
+    except Exception:  # noqa
+        after = [[n, to_items(d)] for n, d in U.UNIT_DEFINITIONS.items()]
+        if after != before:
+            changes.append("define_unit({!r}, {!r}) was rejected but changed the definitions from {} to {}".format(
+                name, text, before, after))
+        return
+    raise CaseInvalid("define_unit({!r}, {!r}) was accepted".format(name, text))
+
+
+def run_setunit(history, tree, idx, new_items, frac=False, style=None):
+    """build a tree whose operands are leaves, READ its unit, change the unit of leaf [idx] through the public setter
+    (on the same object), recalculate() the result and observe it again"""
+    q = _q()
+    reset_state()
+    try:
+        apply_history(history)
+        nodes = []
+        with warnings.catch_warnings(record=True) as w:
+            warnings.simplefilter("always")
+            try:
+                with styled(dict(style or {}, share=False)):
+                    r = build(tree, nodes)
+                    leaves = list(_LEAVES)
+                if not hasattr(r, "recalculate") or idx >= len(leaves):
+                    raise CaseInvalid("nothing to recalculate")
+                _ = r.unit
+                try:
+                    _ = str(r)
+                except Exception:  # noqa -- the VALUE may be outside an operator's domain (0 ** -1 ...): not our concern
+                    pass
+                leaves[idx].unit = ustr(new_items)
+                if to_items(leaves[idx]._unit) != [list(x) for x in new_items]:
+                    raise CaseInvalid("unit setter parsed differently")
+                del w[:]
+                r.recalculate()
+                text = r.unit
+            except RecursionError:
+                return {"exc": "rec", "exact": True}
+            except CaseInvalid:
+                raise
+            except Exception as e:  # noqa
+                return {"exc": "crash", "what": "{}: {}".format(type(e).__name__, str(e)[:120]), "exact": True}
+        warned = any(MISMATCH_TEXT in str(x.message) for x in w)
+        node_items = [to_items(n._unit) for n in nodes]
+        defs_items = [x for ev in history if ev[0] == "define" for x in ev[2]]
+        return {"exc": None, "unit": to_items(r._unit), "warned": warned, "text": text,
+                "exact": all(small_dyadic(it) for it in node_items), "nodes": node_items, "defs_items": defs_items}
+    finally:
+        reset_state()
+
+
+def replace_leaf(tree, idx, new_items):
+    """the tree with its idx-th leaf (in construction order) replaced"""
+    count = [0]
+
+    def go(t):
+        if t[0] == "leaf":
+            i = count[0]
+            count[0] += 1
+            return leaf(new_items) if i == idx else t
+        if t[0] == "cst":
+            return t
+        return t[:2] + [go(x) for x in t[2:]]
+    return go(tree)
+
+
+def count_leaves(t):
+    if t[0] == "leaf":
+        return 1
+    if t[0] == "cst":
+        return 0
+    return sum(count_leaves(x) for x in t[2:])
+
+
+def oracle_setunit(history, tree, idx, new_items, style=None):
+    defs = defs_of(history)
+    newtree = replace_leaf(tree, idx, new_items)
+    try:
+        exp = o_dim(newtree, defs)
+        obs = run_setunit(history, tree, idx, new_items, style=style)
+    except (OutOfDomain, Cyclic, CaseInvalid):
+        return None
+    why = judge(obs, exp, defs, newtree)
+    return "after the unit of operand #{} was set to {!r} and the result recalculated: {}".format(
+        idx + 1, ustr(new_items), why) if why else None
+
+
 def session_events_before(steps):
     """for every use step: the define/clear events that precede it"""
     events, out = [], []
     for st in steps:
         if st[0] == "use":
             out.append(list(events))
-        else:
+        elif st[0] in ("define", "clear"):
             events.append(st)
     return out
 
@@ -384,6 +488,8 @@ def oracle_session(steps, style=None):
         obs = run_session(steps, style)
     except CaseInvalid:
         return None
+    if run_session.state_changes:
+        return run_session.state_changes[0]
     uses = [st for st in steps if st[0] == "use"]
     for i, (st, ob, evs) in enumerate(zip(uses, obs, session_events_before(steps))):
         defs = defs_of(evs)
@@ -524,7 +630,7 @@ class Enc:
             if st[0] == "use":
                 terms.append(self.I("(SUse {} {} {})".format(self.tree(st[1]), self.obs(obs[i]), self.opt_umap(showns[i]))))
                 i += 1
-            else:
+            elif st[0] in ("define", "clear"):
                 terms.append("(SEv {})".format(self.event(st)))
         return "[" + "; ".join(terms) + "]"
 
@@ -889,7 +995,28 @@ def stale_probes(rng, events, n=None):
     return out
 
 
+def with_rejected_defines(rng, steps):
+    """the same session with define_unit calls that the library rejects (malformed unit text for a name that is or is
+    not defined, malformed name), some offered twice in a row: they must change nothing"""
+    out = []
+    for st in steps:
+        out.append(st)
+        if rng.random() < 0.25:
+            names = [x[1] for x in out if x[0] == "define"] or ["N"]
+            bad = ["bad_define", rng.choice(names), rng.choice(BAD_UNIT_TEXTS)] if rng.random() < 0.75 else \
+                ["bad_define", rng.choice(BAD_NAMES), "kg*m"]
+            out.append(bad)
+            if rng.random() < 0.4:
+                out.append(list(bad))
+    return out
+
+
 def gen_session(rng):
+    steps = gen_session_plain(rng)
+    return with_rejected_defines(rng, steps) if rng.random() < 0.3 else steps
+
+
+def gen_session_plain(rng):
     """define / clear / use steps; a good share redefines (or defines for the first time) a name on which an already
     USED name is built, without a clear in between; another share clears (the FIRST clear of the process) after
     definitions were made, optionally defines the names differently, and then prints / computes units in the expanded
@@ -1161,6 +1288,38 @@ def judge(obs, exp, defs, tree, frac=False):
         if any(n == 0 for _, n, _ in obs["unit"]):
             return "a cancelled unit stays in the result of * or /: {}".format(obs["unit"])
     return None
+
+
+def check_one(c):
+    """one self-standing case of the tree kinds: a tree, or a tree whose operand unit is changed through the setter"""
+    if "idx" in c:
+        return oracle_setunit(c.get("history", []), c["tree"], c["idx"], c["new"], c.get("style"))
+    return oracle_check(c.get("history", []), c["tree"], c.get("frac", False), c.get("style"))
+
+
+def gen_setunit(rng, history, leafgen):
+    """a depth-1 tree, an operand index and the unit it is given afterwards (often the unit of the other operand, so that a
+    sum that mismatched now matches, or the reverse)"""
+    a, b = leaf(leafgen(rng)), leaf(leafgen(rng))
+    k = rng.random()
+    if k < 0.2:
+        tree = ["un", rng.choice(UN_OPS), a]
+    elif k < 0.3:
+        tree = ["bin", "pow", a, cst(rng.choice([2, -1, Fraction(1, 2)]))]
+    else:
+        op = rng.choice(BIN_OPS)
+        if op in ("add", "sub") and rng.random() < 0.5:
+            b = leaf(permuted(rng, a[1]))
+        tree = ["bin", op, a, b] if rng.random() < 0.85 else ["bin", op, cst(2), b]
+    n = count_leaves(tree)
+    idx = rng.randrange(n)
+    r = rng.random()
+    if r < 0.4 and n == 2:
+        other = tree[2 + (1 - idx)][1]
+        new = permuted(rng, other)
+    else:
+        new = leafgen(rng)
+    return tree, idx, [list(x) for x in new]
 
 
 def fmt_dim(d):
